@@ -1,5 +1,6 @@
 import VerifModel.Base.Proto
 import VerifModel.Model.Axis
+import VerifModel.Model.AxisAll
 import VerifModel.Gen.Axis
 import VerifModel.Spec.Calendar
 /- Driver ops for the axis buckets, date conversions and slicing (C11). -/
@@ -71,7 +72,27 @@ def subsetDataset (D : Dims) (sub : TimeSubset) : Option (Dims × (Case → Nat)
   if emptyT then none else
   some (D', fun c => (K[c.1]?).getD 0 * L * S + c.2.1 * S + c.2.2)
 
+/-- `slices all …`: `Data.get_scores([Obs, Fcst], 0, verif.axis.All())`: shape and the whole array in
+row-major order, the flat index of the case where it is valid and `nan` where it is not; `nan` alone
+where no initialisation time survives (`scores[0].shape[0] == 0` in get_scores) -/
+def slicesAllOp (ts ls locs mask sub : String) : Option String := do
+  let D : Dims := ⟨← parseInts? ts, ← parseRats? ls, ← parseLocs? locs⟩
+  let sub ← parseSubset? sub
+  let bits := mask.toList
+  if bits.length ≠ D.times.length * D.leadtimes.length * D.locs.length then none else
+  match subsetDataset D sub with
+  | none => some "ERR"
+  | some (D', flat) =>
+    let valid : Case → Bool := fun c => bits[flat c]? == some '1'
+    if D'.times.isEmpty then some "nan" else
+    let showCell : Option Case → String
+      | some c => toString (flat c)
+      | none => "nan"
+    some (s!"{D'.times.length},{D'.leadtimes.length},{D'.locs.length}|" ++
+      ",".intercalate ((sliceAll D' valid).map showCell))
+
 def slicesOp (ax ts ls locs mask sub : String) : Option String := do
+  if ax == "all" then slicesAllOp ts ls locs mask sub else
   let k ← Kind.ofName? ax
   let D : Dims := ⟨← parseInts? ts, ← parseRats? ls, ← parseLocs? locs⟩
   let sub ← parseSubset? sub
